@@ -90,7 +90,13 @@ class Prop(PropBase):
             q = (arr / z.sample_rate).to(getattr(u, case.get("qunit", "ms")))
             seen = np.asarray((q * z.sample_rate).to_value(u.one), dtype=float)
             return q, seen
-        return arr, np.asarray(arr, dtype=float)
+        # equivalent spellings of a plain-number shift: ndarray / nested list / tuple / NumPy scalar / Python number
+        k = case["seed"] % 5
+        if case["shp"]:
+            arg = (arr, arr.tolist(), tuple(arr.tolist()) if arr.ndim == 1 else arr, arr, arr)[k]
+        else:
+            arg = (arr, np.float64(arr), np.array(arr), int(arr) if float(arr).is_integer() else arr, arr)[k]
+        return arg, np.asarray(arr, dtype=float)
 
     def run_code(self, case):
         pb, np, u = self.pb, self.np, self.u
@@ -124,7 +130,7 @@ class Prop(PropBase):
                 elif zz.sample_rate == z.sample_rate or not case["quantity"]:
                     out["repeat_same"] = out["repeat_same"] and bool(np.array_equal(np.asarray(d.data), np.asarray(y0.data)))
                 zd = type(z).like(z, da.from_array(np.asarray(z.data), chunks=(-1,) + (1,) * (z.ndim - 1)))
-                arg2 = arg * 0.5 if not np.isscalar(arg) or True else arg
+                arg2 = arg * 0.5 if isinstance(arg, u.Quantity) else np.asarray(arg, dtype=float) * 0.5
                 l1, l2 = pb.time_shift(zd, arg), pb.time_shift(zd, arg2)
                 a1, a2 = l1.data.compute(scheduler="synchronous"), l2.data.compute(scheduler="synchronous")
                 j1, j2 = dask.compute(l1.data, l2.data, scheduler="synchronous")
